@@ -16,7 +16,7 @@
    of Pack write into a bytes.Buffer, whose Write never fails; they are not calls on the destination.) *)
 From Coq Require Import List Arith NArith ZArith Bool.
 From GoMC Require Import Base.Bytes Base.Bits Base.Dec Gen.Consts.
-From GoMC Require Model.C05 Model.C06 Model.C07 Model.C16 Model.C11 Model.C01.
+From GoMC Require Model.C05 Model.C06 Model.C07 Model.C16 Model.C11 Model.C01 Model.C03.
 Import ListNotations.
 Open Scope N_scope.
 
@@ -262,3 +262,190 @@ Definition d_nbt_ty f fuel ty := Decode f (dec_ty fuel ty).
 Definition mk_rstate (id : Z) (cap : N) : C07.rstate := C07.Build_rstate id [] cap.
 Definition rstate_view (r : C07.rstate) : Z * N * list N := (C07.r_id r, C07.r_cap r, C07.r_data r).
 Definition bits_store (bs : list N) : C11.bstore := C11.mkBS (C11.longs_of bs) 0 0%Z 0%Z 0%Z.   (* from big-endian bytes *)
+
+(* ================================================================================ phase 2 *)
+
+(* ---- a flat run that reports the source's error `term` on a short read, walking at most n cells per
+   ReadFull (the shape of Base.Dec.run_fast).  Proofs/C09_more.v: for robust d,
+   run_src d tg term s = run_flat_t term d (concat s), and run_flat_t eEOF = run_flat.  The driver uses it for
+   inputs beyond the sizes on which it runs run_src itself. *)
+Fixpoint run_flat_t {A} (term : N) (d : dec A) (s : list N) : fres A :=
+  match d with
+  | Ret a => FOk a s
+  | Fail e => FErr e
+  | Crash w => FPanic w
+  | NoFuel => FFuel
+  | ReadByte k => match s with [] => FErr term | b :: s' => run_flat_t term (k b) s' end
+  | ReadFull n k => if fits n s then run_flat_t term (k (takeN n s)) (dropN n s) else FErr term
+  | RawRead n k =>
+      if fits n s then run_flat_t term (k (takeN n s)) (dropN n s)
+      else match s with
+           | [] => if n =? 0 then run_flat_t term (k []) [] else FErr term
+           | _ => run_flat_t term (k (s ++ repeat 0 (N.to_nat n - length s))) []
+           end
+  end.
+
+(* ---- how many bytes a run takes from its source before it ends: on success what it consumed, on a short read
+   everything (io.ReadFull takes what is there before it fails), on an error of the decoder's own what it
+   had read so far.  This is what a countingReader between the decoder and the source has counted. *)
+Fixpoint consumed {A} (d : dec A) (s : list N) : N :=
+  match d with
+  | Ret _ | Fail _ | Crash _ | NoFuel => 0
+  | ReadByte k => match s with [] => 0 | b :: s' => 1 + consumed (k b) s' end
+  | ReadFull n k => if fits n s then n + consumed (k (takeN n s)) (dropN n s) else lenN s
+  | RawRead n k => if fits n s then n + consumed (k (takeN n s)) (dropN n s) else lenN s
+  end.
+
+(* ---- struct / pointer / array / RawMessage-field destinations of nbt.Decoder (Model/C03.v) *)
+Definition d_nbt_st (f : fmt) (fuel : nat) (sh : C03.sty) (cur : C03.sval) := Decode f (C03.dec_st fuel sh cur).
+
+(* ---- pk.NBTField.ReadFrom (net/packet/types.go): a countingReader (not an io.ByteReader, so nbt.NewDecoder wraps
+   it: ReadByte = one Read of one byte that returns the byte when n = 1) around the source, network format,
+   Decode into V; an ErrEND raised anywhere ends the field with a nil error and V untouched; the count returned,
+   with or without an error, is what the countingReader saw. *)
+Fixpoint catch_end {A} (d : dec A) : dec (option A) :=
+  match d with
+  | Ret a => Ret (Some a)
+  | Fail e => if e =? eEND then Ret None else Fail e
+  | Crash w => Crash w
+  | NoFuel => NoFuel
+  | ReadByte k => ReadByte (fun b => catch_end (k b))
+  | ReadFull n k => ReadFull n (fun bs => catch_end (k bs))
+  | RawRead n k => RawRead n (fun bs => catch_end (k bs))
+  end.
+Definition nbtfield_body {A} (body : N -> dec A) : dec (option A) :=
+  r <- catch_end (Decode Net body) ;; Ret (option_map snd r).
+Definition d_nbtfield {A} (body : N -> dec A) : dec (option A * N) :=
+  r <- tee (nbtfield_body body) ;; Ret (fst r, lenN (snd r)).
+Definition d_nbtfield_any (fuel : nat) := d_nbtfield (dec_any fuel).
+(* the count NBTField returns together with an error *)
+Definition nbtfield_errn {A} (body : N -> dec A) (s : list N) : N := consumed (nbtfield_body body) s.
+
+(* ---- PluginMessageData.ReadFrom = io.ReadAll: Read until the source reports an error; the data of every call is
+   appended BEFORE its error is looked at; io.EOF is the normal end (nil error), anything else is returned
+   together with what was read so far.  (How the pieces are split further by the buffer io.ReadAll grows is
+   not modelled: it only ever asks for at most what it has room for.)  Result: the data, its length as the
+   count, and the error if any. *)
+Fixpoint read_all (term : N) (s : stream) : list N * option N :=
+  match s with
+  | [] => ([], if term =? eEOF then None else Some term)
+  | c :: t => let r := read_all term t in (c ++ fst r, snd r)
+  end.
+Definition plugin_read (tg : bool) (term : N) (s : stream) : list N * N * option N :=
+  let r := read_all term s in (fst r, lenN (fst r), snd r).
+
+(* ---- the count a packet-field ReadFrom returns TOGETHER WITH an error (net/packet/types.go, util.go), as a
+   function of the bytes the source delivered before it failed; meaningful when run_flat (read_f fuel t old) s
+   is not FOk.
+     Boolean / Byte / UnsignedByte / Angle: 0 (readByte, since fix 4b19f2e also behind an io.ByteReader)
+     Short ... Double, UUID, Position: the partial count of io.ReadFull = everything delivered
+     VarInt / VarLong: the bytes read so far; "too big" returns the cap
+     String: the length prefix only (the partial content is NOT counted); ByteArray, BitSet: prefix + partial
+     Ary: prefix + the counts of the completed elements + the count of the failing one
+     Option: 1 + the value's;  Opt: the field's;  Tuple: the completed fields only (the failing field's own
+     count is dropped: `return n, err` before `n += nn`) *)
+Import Model.C05 Model.C06.
+Definition errn_var (cap : Z) (s : list N) : N := N.min (Z.to_N cap) (lenN s).
+Definition errn_len (l : lenk) (s : list N) : N :=
+  match l with
+  | LVarInt => errn_var packet_MaxVarIntLen s
+  | LVarLong => errn_var packet_MaxVarLongLen s
+  | LByte | LUByte => 0
+  | _ => lenN s
+  end.
+Fixpoint errn_elems (fuel : nat) (run : fval -> list N -> fres (fval * N)) (en : fval -> list N -> N)
+                    (olds : N -> fval) (i len : N) (s : list N) : N :=
+  if len <=? i then 0 else
+  match fuel with
+  | O => 0
+  | S f => match run (olds i) s with
+           | FOk (_, n1) rest => n1 + errn_elems f run en olds (i + 1) len rest
+           | _ => en (olds i) s
+           end
+  end.
+Definition errn_prefixed (s : list N) (after : Z -> N -> list N -> N) : N :=
+  match run_flat read32 s with
+  | FOk (l, n) rest => if (l <? 0)%Z then n else after l n rest
+  | _ => errn_var packet_MaxVarIntLen s
+  end.
+Fixpoint errn (fuel : nat) (t : fty) (old : fval) (s : list N) : N :=
+  match t with
+  | TBool | TByte | TUByte | TAngle => 0
+  | TShort | TUShort | TInt | TLong | TFloat | TDouble | TUUID | TPosition => lenN s
+  | TVarInt => errn_var packet_MaxVarIntLen s
+  | TVarLong => errn_var packet_MaxVarLongLen s
+  | TString => errn_prefixed s (fun _ n _ => n)
+  | TByteArray | TBitSet => errn_prefixed s (fun _ n rest => n + lenN rest)
+  | TAry l e =>
+      match run_flat (r_len l) s with
+      | FOk (len, n) rest =>
+          if (len <? 0)%Z then n else
+          let backing := fst (list_of old) ++ snd (list_of old) in
+          let olds := if (Z.of_N (lenN backing) <? len)%Z then (fun _ => zero_of e)
+                      else (fun i => nth (N.to_nat i) backing (zero_of e)) in
+          n + errn_elems fuel (fun o => run_flat (read_f fuel e o)) (errn fuel e) olds 0 (Z.to_N len) rest
+      | _ => errn_len l s
+      end
+  | TOption e =>
+      match s with
+      | [] => 0
+      | _ :: rest => 1 + errn fuel e (match old with VOpt _ x => x | _ => zero_of e end) rest
+      end
+  | TOpt has e => if has then errn fuel e old s else 0
+  | TPair a b =>
+      let oa := match old with VPair x _ => x | _ => zero_of a end in
+      let ob := match old with VPair _ y => y | _ => zero_of b end in
+      match run_flat (read_f fuel a oa) s with
+      | FOk (_, na) rest => na + errn fuel b ob rest
+      | _ => 0
+      end
+  | TUnit => 0
+  end.
+(* FixedBitSet: the partial count; BitStorage.ReadFrom: like ByteArray (prefix + every byte of the Longs read) *)
+Definition errn_fixedbitset (s : list N) : N := lenN s.
+Definition errn_bits (s : list N) : N := errn_prefixed s (fun _ n rest => n + lenN rest).
+
+(* ---- writers: Marshaler values inside a document.  nbt.RawMessage.MarshalNBT hands its Data to ONE Write;
+   MarshalNBT of a dynbt Value pointer writes a scalar / string / typed array with ONE Write of its stored payload, a list
+   as element id, count and the elements, a compound as writeTag (three calls) + value per entry and a final
+   TagEnd.  Everything else goes through Encoder.writeValue (nbt_calls). *)
+Import Model.C01.
+Inductive wtree : Type :=
+| WLeaf (t : tag)                          (* written by the reflective encoder *)
+| WRaw (t : tag)                           (* one Write of payload t *)
+| WList (eid : N) (l : list wtree)
+| WComp (l : list (list N * wtree)).
+Fixpoint untree (w : wtree) : tag :=
+  match w with
+  | WLeaf t | WRaw t => t
+  | WList eid l => TList eid (map untree l)
+  | WComp l => TCompound (map (fun kv => (fst kv, untree (snd kv))) l)
+  end.
+Fixpoint wt_calls (w : wtree) : list wcall :=
+  match w with
+  | WLeaf t => nbt_calls t
+  | WRaw t => [ck (payload t)]
+  | WList eid l => ck [eid] :: ck (be 4 (lenN l)) :: flat_map wt_calls l
+  | WComp l =>
+      flat_map (fun kv => ck [tag_id (untree (snd kv))] :: ck (be 2 (lenN (fst kv))) :: ck (fst kv) :: wt_calls (snd kv)) l
+      ++ [ck [idEnd]]
+  end.
+Definition wt_doc_calls (f : fmt) (name : list N) (w : wtree) : list wcall :=
+  match f with
+  | File => ck [tag_id (untree w)] :: ck (be 2 (lenN name)) :: ck name :: wt_calls w
+  | Net => ck [tag_id (untree w)] :: wt_calls w
+  end.
+(* a dynbt Value holding the tree t *)
+Fixpoint dyn_w (t : tag) : wtree :=
+  match t with
+  | TList eid l => WList eid (map dyn_w l)
+  | TCompound l => WComp (map (fun kv => (fst kv, dyn_w (snd kv))) l)
+  | _ => WRaw t
+  end.
+
+(* ---- phase 2 names for the driver *)
+Definition errn_varint (s : list N) : N := errn_var packet_MaxVarIntLen s.
+Definition errn_varlong (s : list N) : N := errn_var packet_MaxVarLongLen s.
+Definition nbtfield_errn_any (fuel : nat) (s : list N) : N := nbtfield_errn (dec_any fuel) s.
+Definition st_zero := C03.zero.
+Definition st_depth := C03.sdepth.
